@@ -23,7 +23,7 @@
 (*               never applied - see DESIGN 5-1)                            *)
 (*   "lookahead" only the clipping looks past the entry (the repaired code) *)
 (***************************************************************************)
-EXTENDS Integers, Sequences, FiniteSets, TLC
+EXTENDS Integers, Sequences, FiniteSets, TLC, TDSLaws
 
 CONSTANTS
     TimerIds,      \* e.g. {1,2,3}
@@ -118,14 +118,7 @@ CalcH(now, first, resume) ==
 (* equals now exactly acts on its device, in timer order.                  *)
 ActSet(now) == {i \in TimerIds : timers[i].en /\ timers[i].tau = now}
 
-RECURSIVE ApplyAll(_, _)
-ApplyAll(u, S) == IF S = {} THEN u
-                  ELSE LET i == CHOOSE x \in S : \A y \in S : x <= y
-                           d == DevOf[i]
-                           v == CASE KindOf[i] = "toggle" -> 1 - u[d]
-                                  [] KindOf[i] = "on"     -> 1
-                                  [] OTHER                -> 0
-                       IN ApplyAll([u EXCEPT ![d] = v], S \ {i})
+ApplyAll(u, S) == ApplyEffects(u, S, DevOf, KindOf)
 
 -----------------------------------------------------------------------------
 Init ==
@@ -218,7 +211,7 @@ StepH0 ==
                    busted, swT, swIdx, lastSw, kcount, ustat, ret, exitCode, nfail, nnan, ncrit, fired, firedAt,
                    lastStored, nStored>>
 
-Keep == IF saveEvery = 0 THEN FALSE ELSE IF saveEvery = 1 THEN TRUE ELSE kcount % saveEvery = 0
+Keep == KeepRow(saveEvery, kcount)
 
 Store ==
     /\ pc = "store"
@@ -237,7 +230,7 @@ Criteria(trip) ==
 (* do_switch *)
 Switch ==
     /\ pc = "switch"
-    /\ IF swIdx < NSw /\ t = swT[swIdx + 1]
+    /\ IF SwitchHit(t, swT, swIdx)
        THEN /\ lastSw' = t /\ swIdx' = swIdx + 1
             /\ ustat' = ApplyAll(ustat, ActSet(t))
             /\ fired' = [i \in TimerIds |-> IF i \in ActSet(t) THEN fired[i] + 1 ELSE fired[i]]
@@ -273,8 +266,8 @@ Reject ==
 
 Finish ==
     /\ (pc = "top" /\ ~LoopCond) \/ pc = "fin"
-    /\ ret' = (~busted /\ t = tf)
-    /\ exitCode' = exitCode + (IF ~busted /\ t = tf THEN 0 ELSE 1)
+    /\ ret' = RunSucceeds(busted, t, tf)
+    /\ exitCode' = exitCode + ExitIncrement(busted, t, tf)
     /\ pc' = "done"
     /\ UNCHANGED <<timers, segs, fixt, shrinkt, saveEvery, seg, tf, t, h, deltat, dmin, dmax, niter, conv, lastConv,
                    busted, swT, swIdx, lastSw, kcount, ustat, nfail, nnan, ncrit, fired, firedAt, lastStored, nStored>>
@@ -299,10 +292,10 @@ TypeOK ==
 
 (* C06: the effect is applied exactly once, at the event time, for every enabled timer *)
 (* whose time lies in [0, tf]; never for a disabled one or one outside the interval.   *)
-Due(i) == timers[i].en /\ timers[i].tau >= 0 /\ timers[i].tau <= tf
+Due(i) == IsDue(timers[i].en, timers[i].tau, 0, tf)
 DueExceptT0(i) == Due(i) /\ timers[i].tau # 0
 
-FiredOK(i) == IF Due(i) THEN fired[i] = 1 /\ firedAt[i] = timers[i].tau ELSE fired[i] = 0
+FiredOK(i) == FiredAsRequired(timers[i].en, timers[i].tau, 0, tf, fired[i], firedAt[i])
 
 ExactlyOnce == (pc = "done" /\ ret) => \A i \in TimerIds : FiredOK(i)
 
@@ -320,12 +313,12 @@ DisabledNeverFires == \A i \in TimerIds : ~timers[i].en => fired[i] = 0
 (* C06: effect reaches exactly the addressed device and persists: closed form of the status. *)
 DueSet == {i \in TimerIds : Due(i)}
 TogglesOnly(d) == \A i \in TimerIds : DevOf[i] = d => KindOf[i] = "toggle"
-Parity(d) == Cardinality({i \in DueSet : DevOf[i] = d}) % 2
+Parity(d) == Cardinality({i \in DueSet : DevOf[i] = d})
 ExpectedStatus ==
-    (pc = "done" /\ ret) => \A d \in Devs : TogglesOnly(d) => ustat[d] = (IF Parity(d) = 1 THEN 0 ELSE 1)
+    (pc = "done" /\ ret) => \A d \in Devs : TogglesOnly(d) => ustat[d] = ToggleParityStatus(1, Parity(d))
 ExpectedStatusExceptT0 ==
     (pc = "done" /\ ret /\ \A i \in TimerIds : ~(timers[i].en /\ timers[i].tau = 0)) =>
-        \A d \in Devs : TogglesOnly(d) => ustat[d] = (IF Parity(d) = 1 THEN 0 ELSE 1)
+        \A d \in Devs : TogglesOnly(d) => ustat[d] = ToggleParityStatus(1, Parity(d))
 
 (* C06: no step crosses an event time (the time of any timer, enabled or not). *)
 NoStepCrossesSwitch ==
